@@ -277,8 +277,7 @@ fn roc_json(form: &str, p: i64, r: Result<Result<linfa::metrics::ReceiverOperati
     match r {
         Ok(Ok(roc)) => {
             let curve: Vec<Value> = roc.get_curve().iter().map(|(a, b)| json!([num(*a as f64), num(*b as f64)])).collect();
-            out.push(json!({"ev": "roc", "form": form, "p": p, "curve": curve, "auc": num(roc.area_under_curve() as f64),
-                            "nthr": roc.get_thresholds().len()}));
+            out.push(json!({"ev": "roc", "form": form, "p": p, "curve": curve, "auc": num(roc.area_under_curve() as f64)}));
         }
         Ok(Err(_)) => out.push(json!({"ev": "rocerr", "form": form, "p": p})),
         Err(msg) => out.push(panic_event("roc", &msg)),
